@@ -36,7 +36,7 @@ META = {
     "design_ref": "DESIGN.md §3 C02",
     "engines": ["backends"],
 }
-REQUIRED = ("programs", "trials_judged", "propagated_exceptions", "tell_calls", "tell_on_finished", "callback_checks", "n_jobs_3_programs", "late_tells")
+REQUIRED = ("programs", "trials_judged", "propagated_exceptions", "tell_calls", "tell_on_finished", "callback_checks", "n_jobs_3_programs", "late_tells", "programs_with_progress_bar")
 SHARDS = {"quick": 12, "thorough": 16}
 WATCHDOG_S = {"quick": 900, "thorough": 3 * 3600}
 
@@ -180,17 +180,24 @@ def run_program(ctx: Ctx, rng, store, kind: str, pidx: int) -> None:
             cb2_count[ft.number] = cb2_count.get(ft.number, 0) + 1
 
     raised = None
+    pbar = pidx % 6 == 4          # every 6th program runs with the progress bar on (its output is discarded)
+    import contextlib
+    import io
+
     try:
-        study.optimize(objective, n_trials=n_trials, n_jobs=n_jobs, catch=catch, callbacks=[callback, callback2])
+        with contextlib.redirect_stderr(io.StringIO()) if pbar else contextlib.nullcontext():
+            study.optimize(objective, n_trials=n_trials, n_jobs=n_jobs, catch=catch, callbacks=[callback, callback2], show_progress_bar=pbar)
     except BaseException as e:  # noqa: BLE001
         raised = e
+    if pbar:
+        ctx.count("programs_with_progress_bar")
     ctx.count("programs")
     if n_jobs == 3:
         ctx.count("n_jobs_3_programs")
     ctx.count(f"backend_{kind}")
     trials = study.get_trials(deepcopy=True)
     case = {"backend": kind, "program_index": pidx, "seed": ctx.seed, "n_objectives": nobj, "n_trials": n_trials, "n_jobs": n_jobs, "catch": [c.__name__ for c in catch],
-            "plan": [(p[0], repr(cat[p[1]])[:40]) if p[0] in ("return", "stop_then_return") else p for p in plan[: n_trials]], "after_trial_raises_for": sorted(boom),
+            "show_progress_bar": pbar, "plan": [(p[0], repr(cat[p[1]])[:40]) if p[0] in ("return", "stop_then_return") else p for p in plan[: n_trials]], "after_trial_raises_for": sorted(boom),
             "callback_raises_for": sorted(cb_raise)}
     facts = {"backend_family": backends.family_of(kind), "n_jobs": n_jobs}
     nontrivial = False
